@@ -113,7 +113,12 @@ pub(super) fn kept_gradient_check() {
 pub(super) fn release_check(variant: u8) {
     let a = mk(&[2], sym_vec(2, sym_val)).tracked();
     let b = mk(&[2], sym_vec(2, sym_val)).tracked();
-    {
+    if variant == 4 {
+        // a result whose derivative can hand an all-zero adjoint to the node below it (inactive ReLU units)
+        let e = (&a * &b).relu();
+        e.backward(None);
+        assert!(Rc::strong_count(&a.values) >= 2, "the graph holds the leaf while results are alive");
+    } else {
         let c = &a * &b;
         let d = &c + &a;
         let e = if variant >= 1 { d.reshape(vec![1, 2]) } else { &d * &c };
